@@ -50,6 +50,9 @@ func runC08(w *World) {
 		return
 	}
 	p := s.P
+	if mode < 6 { // (the fidelity plugin refuses every OPEN / returns a NOTIFICATION by index)
+		s.PriorSession(w)
+	}
 	c := s.E.OpenConn(p, dir, time.Minute)
 	if c == nil {
 		w.HarnessError("C08: no connection")
